@@ -464,6 +464,14 @@ def check_class(chk, ctx, ci, q, v, want, regex_ok, site):
              min(c[2] for c in encs if c[2]))
         rets = [o for o in mouts if o.kind == 'return']
         guarded = guarded and bool(rets)
+        # a ValueError raised while encoding that is not one of the
+        # specified constraints refuses a value the protocol allows
+        extra = [p_ for p_ in mprob if ' raised at ' not in p_]
+        for p_ in sorted(set(extra))[:3]:
+            chk.ob('C13.M', q + ' marshal refusals', False,
+                   'marshal raises ValueError outside the specified '
+                   'constraints: %s' % p_.replace('VIOLATION ', '')[:160],
+                   site=site)
         chk.ob('C13.M', q + ' marshal validates', same and guarded,
                'marshal raises the validate() conditions; validate() is '
                'called unconditionally before anything is encoded'
